@@ -358,6 +358,10 @@ class FnContract:
             finals = eng.block(node.body, st)
         except OutOfReach as e:
             res.out_of_reach = str(e)
+            # a store into the construct met BEFORE the executor gave up is still an obligation of its own (C17 frame)
+            for msg, fst in eng.frame_violations:
+                eng.emit(fst, '%s/frame/%s' % (eng.fnname, msg), t.FALSE, kind='frame', tags=('C17',))
+            res.obligations = [ob for ob in eng.obls if ob.kind == 'frame']
             return res
         res.paths = len(finals)
         fname = eng.fnname
